@@ -16,7 +16,8 @@ RULE = ("full product of input spelling (directory: absolute, relative, trailing
         "non-trivial = every generated page; distinct by (configuration, file)")
 
 FILES = ["a.cmake", "d1/b.cmake", "d1/d2/c.cmake", "d1/d2/d3/x.y-z.cmake", "mods.cmake.d/arm.cmake",
-         "d1/conf.cmake.in.cmake", ".hidden.cmake", "hidden.cmake", "-dash.cmake", "dash.cmake"]
+         "d1/conf.cmake.in.cmake", ".hidden.cmake", "hidden.cmake", "-dash.cmake", "dash.cmake",
+         "d1/データ.cmake", "cafe\u0301.cmake"]     # East Asian wide characters, a combining mark
 SEPS = [".", "/", "::", "-"]
 
 
@@ -126,6 +127,17 @@ def run_config(job):
             if len(set(titles.values())) != len(titles):
                 msgs.append(f"collision: different files share a title/module name: {titles}")
             obs.append(sorted(titles.items()))
+        # the same run without -o: the pages printed on standard output carry the same titles and module names
+        r = box.run(["-s", box.path("work", "s.yaml"), "-r"] + pargs + ["in"])
+        n += 1
+        if r["status"] != 0:
+            msgs.append(f"error: stdout run failed: {r['exc'] or r['stdout'][-200:]}")
+        else:
+            import re as _re
+            mods = _re.findall(r"^\.\. module:: (.*)$", r["stdout"], _re.M)
+            want = sorted(v[1] for v in seen.values())
+            if sorted(mods) != want:
+                msgs.append(f"stdout-titles: without -o the module names are {sorted(mods)[:6]}..., with -o {want[:6]}...")
         # several inputs in one invocation: every page is titled from its own input, not from an earlier one
         box.build({"second/a.cmake": fsbox.cmake_content("second/a"), "second/d1/b.cmake": fsbox.cmake_content("second/d1/b")})
         out = box.path("work", "out-multi")
@@ -192,7 +204,7 @@ def run_config(job):
 
 # ---------------------------------------------------------------- module doccomments
 
-MOD_NAMES = [None, "", "nm", "a.b-c"]
+MOD_NAMES = [None, "", "nm", "a.b-c", "tool/arm.cmake", "工具.helpers"]
 MOD_BODIES = [[], ["Module body one."], ["Module body one.", "  indented second"]]
 MOD_INDENTS = ["", "  ", "      ", "        ", "\t", "GAP2", "GAPTAB"]   # the last two: '#[[[  @module', '#[[[<TAB>@module' 
 MOD_NEXT = ["documented", "undocumented", "none"]
@@ -299,7 +311,7 @@ def run(ctx):
     mjobs += [(sep, "none", False, False, hdr) for sep in SEPS[:2] for hdr in (("=", "-", "~"), ("^", "*"))]
     ctx.sweep(run_modules, mjobs, space="module doccomments", selftest=1, chunk=1)
     ctx.cov["bounds"] = {"files": FILES, "separators": SEPS, "dir_spellings": [s[0] for s in DIR_SPELLINGS],
-                         "file_spellings": [s[0] for s in FILE_SPELLINGS], "module_variants": 4 * 3 * 7 * 3}
+                         "file_spellings": [s[0] for s in FILE_SPELLINGS], "module_variants": 6 * 3 * 7 * 3}
     ctx.assumptions += ["path components may be joined by the OS separator or by the configured separator (both accepted)",
                         "a lone input file has a prefix only when one is configured explicitly"]
     return RULE
